@@ -288,6 +288,49 @@ Proof.
     reflexivity.
 Qed.
 
+(* ------------------------------------------------------------------ raw line breaks *)
+Definition no_raw_breaks (s : str) : bool := forallb (fun c => negb ((c =? 10) || (c =? 13))) s.
+
+Lemma normalize_no_breaks : forall nl s, no_raw_breaks s = true -> normalize nl s = s.
+Proof.
+  induction s as [|c s IH]; intro H; [reflexivity|]. cbn [no_raw_breaks forallb] in H.
+  apply andb_prop in H as [Hc Hs]. apply negb_true_iff, orb_false_iff in Hc as [E10 E13].
+  apply N.eqb_neq in E10, E13.
+  assert (Hn : forall t, normalize nl (c :: t) = c :: normalize nl t).
+  { intro t. destruct c as [|p]; [reflexivity|].
+    do 4 (destruct p as [p|p|]; try reflexivity); try lia; destruct p; try reflexivity; lia. }
+  rewrite Hn. f_equal. exact (IH Hs).
+Qed.
+
+Lemma uncontinue_no_breaks : forall n s, (length s <= n)%nat -> no_raw_breaks s = true -> uncontinue s = s.
+Proof.
+  induction n as [|n IH]; intros s Hn H.
+  - destruct s; [reflexivity|cbn in Hn; lia].
+  - destruct s as [|c r]; [reflexivity|]. cbn [no_raw_breaks forallb] in H. apply andb_prop in H as [Hc Hr].
+    cbn [uncontinue]. cbn [length] in Hn. destruct (c =? 92).
+    + destruct r as [|d r']; [reflexivity|]. cbn [forallb] in Hr. apply andb_prop in Hr as [Hd Hr'].
+      apply negb_true_iff, orb_false_iff in Hd as [E10 _]. rewrite E10. cbn [length] in Hn.
+      now rewrite (IH r' ltac:(lia) Hr').
+    + now rewrite (IH r ltac:(lia) Hr).
+Qed.
+
+Lemma pre_no_breaks : forall nl s, no_raw_breaks s = true -> normalize nl (uncontinue (normalize [10] s)) = s.
+Proof.
+  intros nl s H. rewrite (normalize_no_breaks [10] s H), (uncontinue_no_breaks (length s) s (le_n _) H).
+  exact (normalize_no_breaks nl s H).
+Qed.
+
+Lemma convert_config_independent : forall nl nl' body, no_raw_breaks body = true -> convert nl body = convert nl' body.
+Proof. intros nl nl' body H. unfold convert. now rewrite !pre_no_breaks. Qed.
+
+Lemma safe_no_breaks : forall q a e e', safe q e a = Some e' -> no_raw_breaks a = true.
+Proof.
+  induction a as [|c a IH]; intros e e' H; [reflexivity|]. cbn [safe] in H. cbn [no_raw_breaks forallb].
+  destruct ((c =? 10) || (c =? 13)); [discriminate|]. cbn [negb andb].
+  destruct e; [destruct (128 <=? c); [discriminate|exact (IH _ _ H)]|].
+  destruct (c =? 92); [exact (IH _ _ H)|]. destruct (c =? q); [discriminate|exact (IH _ _ H)].
+Qed.
+
 (* ------------------------------------------------------------------ whole strings *)
 Definition valid (v : str) : Prop := Forall (fun c => c < 1114112) v.
 
@@ -325,7 +368,8 @@ Lemma string_roundtrip_convert : forall nl st q v, In st styles -> In q [39; 34]
   convert nl (encode st q v) = inl v.
 Proof.
   intros nl st q v Hs Hq Hv. unfold convert, unicode_escape.
-  rewrite encode_normalize, encode_protect, encode_decode by assumption. cbn [ufinish]. now rewrite app_nil_r.
+  assert (Hb : no_raw_breaks (encode st q v) = true) by (eapply safe_no_breaks; apply encode_safe; eassumption).
+  rewrite (pre_no_breaks nl _ Hb), encode_protect, encode_decode by assumption. cbn [ufinish]. now rewrite app_nil_r.
 Qed.
 
 Lemma string_roundtrip_lex : forall st q v rest, In st styles -> In q [39; 34] -> valid v ->
@@ -647,22 +691,6 @@ Proof.
   - destruct (is_digit c0); [|discriminate]. injection Hi as Hi. apply (Hall 10 ltac:(lia)). exact Hi.
 Qed.
 
-(* ------------------------------------------------------------------ raw line breaks *)
-Definition no_raw_breaks (s : str) : bool := forallb (fun c => negb ((c =? 10) || (c =? 13))) s.
-
-Lemma normalize_no_breaks : forall nl s, no_raw_breaks s = true -> normalize nl s = s.
-Proof.
-  induction s as [|c s IH]; intro H; [reflexivity|]. cbn [no_raw_breaks forallb] in H.
-  apply andb_prop in H as [Hc Hs]. apply negb_true_iff, orb_false_iff in Hc as [E10 E13].
-  apply N.eqb_neq in E10, E13.
-  assert (Hn : forall t, normalize nl (c :: t) = c :: normalize nl t).
-  { intro t. destruct c as [|p]; [reflexivity|].
-    do 4 (destruct p as [p|p|]; try reflexivity); try lia; destruct p; try reflexivity; lia. }
-  rewrite Hn. f_equal. exact (IH Hs).
-Qed.
-
-Lemma convert_config_independent : forall nl nl' body, no_raw_breaks body = true -> convert nl body = convert nl' body.
-Proof. intros nl nl' body H. unfold convert. now rewrite !normalize_no_breaks. Qed.
 
 (* ------------------------------------------------------------------ unknown escapes *)
 Lemma unknown_escape_non_ascii : forall nl c, 128 <= c -> c < 1114112 -> convert nl [92; c] = inl [92; c].
@@ -671,7 +699,7 @@ Proof.
   assert (Hn : no_raw_breaks [92; c] = true).
   { cbn [no_raw_breaks forallb]. assert ((c =? 10) = false) as -> by (apply N.eqb_neq; lia).
     assert ((c =? 13) = false) as -> by (apply N.eqb_neq; lia). reflexivity. }
-  rewrite (normalize_no_breaks nl _ Hn). unfold protect. cbn [protect_go N.eqb Pos.eqb].
+  rewrite (pre_no_breaks nl _ Hn). unfold protect. cbn [protect_go N.eqb Pos.eqb].
   assert ((128 <=? c) = true) as -> by (apply N.leb_le; exact H1).
   unfold bsr. cbn [flat_map]. rewrite !bsr_char_ascii by lia. rewrite app_nil_r. cbn [app].
   change (92 :: 92 :: bsr_char c) with ([92; 92] ++ bsr_char c). rewrite ufeed_app.
